@@ -1064,6 +1064,7 @@ func oracle(c Case) vkit.Outcome {
 
 	// ---- what the statements as written need, and the unit-level twin
 	var unitFail *vkit.Failure
+	unitSigs := map[string]bool{} // every need the analyzer fails to report, by signature
 	uncoveredAsWritten := 0
 	allSelect := true
 	for _, s := range c.Stmts {
@@ -1122,6 +1123,7 @@ func oracle(c Case) vkit.Outcome {
 			label("unit:no-ground-truth")
 		case tw.fail != nil:
 			label("unit:FAIL " + tw.fail.sig())
+			unitSigs[tw.fail.sig()] = true
 			if unitFail == nil {
 				accs := "EXPLAIN refused the text: " + fmt.Sprint(tr.err)
 				if tr.err == nil {
@@ -1200,7 +1202,7 @@ func oracle(c Case) vkit.Outcome {
 			label("verdict:ALLOWED-UNCOVERED")
 			n := missing[0]
 			sig := n.sig()
-			if unitFail == nil || unitFail.Sig != sig {
+			if !unitSigs[sig] {
 				// the analyzer reports the table (or the schema change), yet
 				// the endpoint let it through: the cause is the endpoint's
 				// handling of that usage, whatever the expression position
